@@ -31,7 +31,7 @@ META = {
                   "None/[] never stored, falsy values kept, clean failures, fixed values, has_custom, both encoders); (e) TLP instances; "
                   "(f) single-point corruption: every class x slot x 25 junk values/deletion: if strict parse accepts, the serialized JSON must "
                   "satisfy the frozen model under an independent validator.",
-    "level_text_more": 'Also: strict refusal of nested custom content in lists, embedded objects, extensions (given as dictionary or as ready-made instance) and hash names; 10 spellings of the TLP colour. Malformed reference texts (extra \'--\' segments, tails) never accepted; the timestamp-slot jobs of C15 (what a slot emits has the digits its precision demands, whatever kind of value came in); the engine\'s custom property ranges over kept false-y and dropped (None, []) values.',
+    "level_text_more": 'Also: strict refusal of nested custom content in lists, embedded objects, extensions (given as dictionary or as ready-made instance) and hash names; 10 spellings of the TLP colour. Malformed reference texts (extra \'--\' segments, tails) never accepted; the timestamp-slot jobs of C15 (what a slot emits has the digits its precision demands, whatever kind of value came in); the engine\'s custom property ranges over kept false-y and dropped (None, []) values. Rounds 5-6: 17 entry values of unregistered extension-definition extensions x 5 hosts; nulls / empties at any depth of dictionary values; 2.0 observable instances re-checked in a new container; every object reference of a 2.0 container incl. a member under the key `*`; list slots as one-shot iterables; strict bundles with members of unregistered types; members named like constructor flags or _valid_refs; identifier verdicts independent of history.',
     "level_note": "The frozen model is audited, not independent of the pinned tree where the audit did not change it. Pattern validity is delegated "
                   "to stix2patterns; language-content 'contents' structure and co-constraints of classes without a hand-written oracle are outside "
                   "the claim. Table-driven obligations are selector-enumerated.",
